@@ -2616,6 +2616,7 @@ type c07EvCase struct {
 	rsvH    cache.ResourceEventHandler
 	devH    cache.ResourceEventHandler
 	rcache  *frameworkext.FakeReservationCache
+	nomin   *frameworkext.FakeNominator
 	node    *corev1.Node
 	ni      *framework.NodeInfo
 	mem     int64
@@ -2872,6 +2873,37 @@ func (c *c07EvCase) evPodDelete(shape int, p *c07EvPod) {
 	c.checkLedger(kind, before, c.cur)
 }
 
+// an event whose device-allocated annotation is not JSON (kind 0 add, 1 update with a bad NEW annotation, 2 update with
+// a bad OLD annotation, 3 delete): the handlers give up before touching the ledger
+func (c *c07EvCase) evPodBad(kind int, p *c07EvPod) {
+	h := c.h
+	h.Op("evbad %d %d", kind, p.id)
+	before := c.cur
+	good := func() *corev1.Pod { return c.decorate(c07EvPodObj(p.id, p.g, c07Node), kind == 3) }
+	bad := func() *corev1.Pod {
+		pod := good()
+		pod.Annotations[apiext.AnnotationDeviceAllocated] = "{\"gpu\": [ {\"minor\": "
+		return pod
+	}
+	if h.Guard(func() {
+		switch kind {
+		case 0:
+			c.podH.OnAdd(bad(), false)
+		case 1:
+			c.podH.OnUpdate(good(), bad())
+		case 2:
+			c.podH.OnUpdate(bad(), good())
+		default:
+			c.podH.OnDelete(bad())
+		}
+	}) {
+		h.Obs("panic")
+		return
+	}
+	h.Tag(fmt.Sprintf("event:pod-unparsable-annotation:%d", kind))
+	c.afterMutation("absent", "unparsable annotation", before)
+}
+
 func c07Phase(active, terminated bool) schedulingv1alpha1.ReservationPhase {
 	switch {
 	case terminated:
@@ -3077,6 +3109,10 @@ func (c *c07EvCase) beginCycle() *c07Cycle {
 		apiext.ResourceGPUMemoryRatio: *resource.NewQuantity(amount, resource.DecimalSI),
 	}
 	cy.pod = c07EvPodObj(900, nil, "")
+	if r.Chance(1, 5) {
+		cy.pod.Labels = map[string]string{apiext.LabelReservationIgnored: "true"}
+		h.Tag("ro:preemptor-ignores-reservations")
+	}
 	cy.pod.Spec.Containers = []corev1.Container{{Name: "c", Resources: corev1.ResourceRequirements{Requests: podReq, Limits: podReq}}}
 	h.Op("robegin")
 	c.readOnly("PreFilter", func() {
@@ -3124,12 +3160,18 @@ func (c *c07EvCase) dryPod(cy *c07Cycle, remove bool, id int, rsvID int) {
 	} else {
 		h.Op("roadd %d %d %d", id, vB(rv != nil), rsvID)
 	}
-	if rv != nil {
-		c.rcache.RInfo = c.rInfo(rv)
-	} else {
-		c.rcache.RInfo = nil
-	}
 	victim := c07EvPodObj(id, nil, c07Node)
+	c.rcache.RInfo = nil
+	viaNominator := false
+	if rv != nil {
+		if c.nomin != nil && c.r.Chance(1, 3) { // the reservation cache does not know the pod, the nominator does
+			c.nomin.AddNominatedReservation(victim, c07Node, c.rInfo(rv))
+			viaNominator = true
+			h.Tag("ro:reservation-from-nominator")
+		} else {
+			c.rcache.RInfo = c.rInfo(rv)
+		}
+	}
 	pi, _ := framework.NewPodInfo(victim)
 	ok := c.readOnly("RemovePod/AddPod", func() {
 		if remove {
@@ -3139,6 +3181,9 @@ func (c *c07EvCase) dryPod(cy *c07Cycle, remove bool, id int, rsvID int) {
 		}
 	})
 	c.rcache.RInfo = nil
+	if viaNominator {
+		c.nomin.RemoveNominatedReservations(victim)
+	}
 	if !ok {
 		return
 	}
@@ -3342,6 +3387,7 @@ func TestVerifC07Events(t *testing.T) {
 		base.inPlay = []int{0}
 		base.da[0] = 3
 		c := &c07EvCase{c07Case: base, pl: pl, rcache: rcache, node: node, ni: nodeInfo, nextRsv: 500}
+		c.nomin, _ = pl.handle.GetReservationNominator().(*frameworkext.FakeNominator)
 		// the handlers, wired as registerPodEventHandler does (tie_event_wiring checks the source)
 		podH := cache.ResourceEventHandlerFuncs{AddFunc: c.cache.onPodAdd, UpdateFunc: c.cache.onPodUpdate, DeleteFunc: c.cache.onPodDelete}
 		c.podH = podH
@@ -3360,7 +3406,10 @@ func TestVerifC07Events(t *testing.T) {
 			c.inv[0] = append(c.inv[0], c07Dev{minor: perm[i], healthy: i < 2 || !r.Chance(1, 8), res: c07Vec{100, c.mem, 100}, numa: -1})
 		}
 		sort.Slice(c.inv[0], func(i, j int) bool { return c.inv[0][i].minor < c.inv[0][j].minor })
-		c.applyInventory(false)
+		early := r.Intn(8) // 0: a pod delete, 1: a pod add arrives before the node's Device object was ever seen
+		if early > 1 {
+			c.applyInventory(false)
+		}
 
 		garbage := func() int { return int(r.Pick([]int64{c07ShPtrTomb, c07ShTombOther, c07ShNil, c07ShOther})) }
 		newPod := func(rsvID int) *c07EvPod {
@@ -3411,6 +3460,22 @@ func TestVerifC07Events(t *testing.T) {
 				pol = schedulingv1alpha1.ReservationAllocatePolicyRestricted
 			}
 			return &c07EvRsv{id: id, g: g, policy: pol}
+		}
+		if early <= 1 {
+			np := newPod(0)
+			if early == 0 {
+				sh := c07ShObj
+				if r.Bool() {
+					sh = c07ShTomb
+				}
+				c.evPodDelete(sh, np) // the node is unknown to the cache: nothing to release
+				c.nextPod--
+				h.Tag("op:pod-delete-before-inventory")
+			} else {
+				c.evPodAdd(c07ShObj, np)
+				h.Tag("op:pod-add-before-inventory")
+			}
+			c.applyInventory(false)
 		}
 		// warm-up: a few pods so that read-only cycles have victims that share GPUs
 		for i, k := 0, r.Range(2, 4); i < k; i++ {
@@ -3466,6 +3531,10 @@ func TestVerifC07Events(t *testing.T) {
 					continue
 				}
 				pp := c.pods[r.Intn(len(c.pods))]
+				if malformed && r.Chance(1, 2) {
+					c.evPodBad(r.Intn(4), pp)
+					continue
+				}
 				if malformed && r.Chance(1, 3) {
 					so, sn := c07ShObj, garbage()
 					if r.Bool() {
@@ -3560,6 +3629,10 @@ func TestVerifC07Events(t *testing.T) {
 				if !cy.preFilter {
 					continue
 				}
+				if r.Bool() { // the preemption evaluator works on a clone of the cycle state (one per candidate node)
+					cy.cs = cy.cs.Clone()
+					h.Tag("ro:cycle-state-cloned")
+				}
 				pm := r.Perm(len(c.pods))
 				k := len(pm)
 				if k > 3 && r.Bool() {
@@ -3586,6 +3659,10 @@ func TestVerifC07Events(t *testing.T) {
 					c.dryPod(cy, true, 70+r.Intn(5), 0) // a victim the cache does not know
 				}
 				c.dryFilter(cy)
+				if r.Chance(1, 3) { // … and clones it again with the victims' amounts in it
+					cy.cs = cy.cs.Clone()
+					h.Tag("ro:cycle-state-cloned-with-victims")
+				}
 				// reprieve some victims (the reservation cache answers as it did at the removal; 1 in 12: it does not, or the
 				// pod was never removed - a nominated pod - which drives the preemptible amounts negative)
 				for _, v := range removed {
@@ -3659,7 +3736,8 @@ func TestVerifC07Events(t *testing.T) {
 	h.Close("one history per case on one node with 2-4 GPUs through the real informer handlers (pod and reservation, wired as registerPodEventHandler does): " +
 		"pod add / resync / terminated / delete delivered as *Pod or as cache.DeletedFinalStateUnknown by value, reservation add (valid/invalid, active/inactive) / update / Succeeded / delete (object, tombstone), " +
 		"1 case in 4 with shapes client-go never delivers (pointer tombstone, tombstone of another type, nil, other object); in between read-only cycles: PreFilter + RemovePod over all or >= 3 live pods sharing GPUs + Filter + AddPod + Filter, " +
-		"PreRestoreReservation + RestoreReservation over the live reservations with their owner pods + Filter + RemovePod of owner pods; the whole book is re-read after every read-only step. " +
+		"PreRestoreReservation + RestoreReservation over the live reservations with their owner pods + Filter + RemovePod of owner pods, Score / ScoreReservation / FilterNominateReservation / RestoreReservationPreAllocation / CycleState.Clone; " +
+		"Device informer events (resync, health toggle, delete as object / tombstone / garbage, re-creation), unparsable annotations, events before the first inventory, objects with DeletionTimestamp / phases / labels; the whole book is re-read after every read-only step. " +
 		"non-trivial = at least one read-only step and one delete; distinct by op list")
 }
 
@@ -3727,6 +3805,7 @@ func TestVerifC07EventsExhaustive(t *testing.T) {
 		base.inPlay = []int{0}
 		base.da[0] = 3
 		c := &c07EvCase{c07Case: base, pl: pl, rcache: rcache, node: node, ni: nodeInfo, nextRsv: 500, mem: 16 << 30}
+		c.nomin, _ = pl.handle.GetReservationNominator().(*frameworkext.FakeNominator)
 		podH := cache.ResourceEventHandlerFuncs{AddFunc: c.cache.onPodAdd, UpdateFunc: c.cache.onPodUpdate, DeleteFunc: c.cache.onPodDelete}
 		c.podH = podH
 		c.rsvH = reservationutil.NewReservationToPodEventHandler(podH, reservationutil.IsObjValidActiveReservation)
@@ -3794,4 +3873,239 @@ func TestVerifC07EventsExhaustive(t *testing.T) {
 	h.Close("exhaustive enumeration of every sequence of 1-3 steps over: pod add (3 pods, two sharing a GPU and owned by a reservation), pod delete in all six delivery shapes, " +
 		"reservation add (object / tombstone) / delete in all six shapes / Succeeded, a 3-victim preemption dry-run + Filter, a reservation restore + Filter, Device add / delete in all six shapes; 2 GPUs; " +
 		"full book observed after every step; non-trivial = at least 2 steps")
+}
+
+
+// ---------------------------------------------------------------------------------------------------------------
+// C07 "shape" harness: how a pod SPEC becomes "n GPUs, each with this much" - preparePod (GetPodDeviceRequests:
+// RemoveZeros, Mask, ValidateDeviceRequest, ConvertDeviceRequest; parseGPURequirements ->
+// calcDesiredRequestsAndCountForGPU) on pods requesting any combination of nvidia.com/gpu, koordinator.sh/gpu,
+// gpu-shared, gpu-core, gpu-memory, gpu-memory-ratio, spread over one or two containers.
+// Model: Model/C07Shape.lean podShape.  Oracle (the statement's reading of a request): an accepted pod is asked
+// count >= 1 devices; per dimension count x per-device amount <= requested total < count x per-device + count (floor
+// split, never more than requested), the ratio dimension exactly; vendor GPUs n => n whole devices; koordinator.sh/gpu
+// v <= 100 => one device with v/v, 100k => k whole devices; a requested dimension is not dropped.
+// ---------------------------------------------------------------------------------------------------------------
+
+var c07ShapeNames = [6]corev1.ResourceName{apiext.ResourceNvidiaGPU, apiext.ResourceGPU, apiext.ResourceGPUShared, apiext.ResourceGPUCore, apiext.ResourceGPUMemory, apiext.ResourceGPUMemoryRatio}
+
+func c07OptTok(v int64) string {
+	if v < 0 {
+		return "_"
+	}
+	return strconv.FormatInt(v, 10)
+}
+
+func c07ShapeCase(h *vHarness, r *vRand, vals [6]int64) {
+	toks := make([]string, 6)
+	for i, v := range vals {
+		toks[i] = c07OptTok(v)
+	}
+	h.Op("shape %s", strings.Join(toks, " "))
+	// spread the request over one or two containers (PodRequests sums them)
+	c1, c2 := corev1.ResourceList{}, corev1.ResourceList{}
+	two := r.Chance(1, 3)
+	for i, v := range vals {
+		if v < 0 {
+			continue
+		}
+		a := v
+		if two && v > 1 && r.Bool() {
+			a = int64(r.Range(1, int(v)-1))
+			c2[c07ShapeNames[i]] = *resource.NewQuantity(v-a, resource.DecimalSI)
+		}
+		c1[c07ShapeNames[i]] = *resource.NewQuantity(a, resource.DecimalSI)
+	}
+	pod := c07Pod(1, nil, "")
+	pod.Spec.Containers = []corev1.Container{{Name: "a", Resources: corev1.ResourceRequirements{Requests: c1, Limits: c1}}}
+	if len(c2) > 0 {
+		pod.Spec.Containers = append(pod.Spec.Containers, corev1.Container{Name: "b", Resources: corev1.ResourceRequirements{Requests: c2, Limits: c2}})
+		h.Tag("shape:two-containers")
+	}
+	var state *preFilterState
+	var st *fwktype.Status
+	if h.Guard(func() { state, st = preparePod(pod, nil, nil) }) {
+		h.Obs("panic")
+		return
+	}
+	switch {
+	case !st.IsSuccess():
+		h.Obs("shape err")
+		h.Tag("shape:err")
+		return
+	case state.skip:
+		h.Obs("shape skip")
+		h.Tag("shape:skip")
+		for _, v := range vals {
+			if v > 0 {
+				h.Fail("C07:shape-skip-with-request", "pod requesting %v is skipped by the plugin", vals)
+				break
+			}
+		}
+		return
+	case state.gpuRequirements == nil:
+		h.Obs("shape nogpu")
+		return
+	}
+	g := state.gpuRequirements
+	per := [3]int64{-1, -1, -1}
+	for k, name := range c07Res[0] {
+		if q, ok := g.requestsPerGPU[name]; ok {
+			per[k] = q.Value()
+		}
+	}
+	extra := 0
+	for name := range g.requestsPerGPU {
+		if name != c07Res[0][0] && name != c07Res[0][1] && name != c07Res[0][2] {
+			extra++
+		}
+	}
+	h.Obs("shape %d %d %s %s %s %d", g.numberOfGPUs, vB(g.gpuShared), c07OptTok(per[0]), c07OptTok(per[1]), c07OptTok(per[2]), extra)
+	h.Tag(fmt.Sprintf("shape:ok:count%d", c07Min(int64(g.numberOfGPUs), 4)))
+	h.Nontrivial()
+	// ---- oracle ----
+	n := int64(g.numberOfGPUs)
+	if n < 1 {
+		h.Fail("C07:shape-count", "pod requesting %v is asked %d devices", vals, n)
+		return
+	}
+	// requested totals per dimension in device units (gpu-core, gpu-memory, gpu-memory-ratio)
+	nz := func(v int64) int64 {
+		if v <= 0 {
+			return -1
+		}
+		return v
+	}
+	nv, kg, co, me, ra := nz(vals[0]), nz(vals[1]), nz(vals[3]), nz(vals[4]), nz(vals[5])
+	total := [3]int64{co, me, ra}
+	switch {
+	case nv > 0:
+		total = [3]int64{nv * 100, -1, nv * 100}
+		if n != nv || per[0] != 100 || per[2] != 100 {
+			h.Fail("C07:shape-vendor", "nvidia.com/gpu=%d is asked %d devices with %v each", nv, n, per)
+		}
+	case kg > 0:
+		total = [3]int64{kg, -1, kg}
+		wantN := int64(1)
+		if kg > 100 {
+			wantN = kg / 100
+		}
+		if n != wantN {
+			h.Fail("C07:shape-koord-gpu", "koordinator.sh/gpu=%d is asked %d devices", kg, n)
+		}
+	}
+	for k := 0; k < 3; k++ {
+		if total[k] < 0 {
+			if per[k] >= 0 {
+				h.Fail("C07:shape-invented-dimension", "pod requesting %v is asked dimension %d = %d per device although it did not request it", vals, k, per[k])
+			}
+			continue
+		}
+		if per[k] < 0 {
+			h.Fail("C07:shape-dropped-dimension", "pod requesting %v: dimension %d (total %d) is not part of the per-device request", vals, k, total[k])
+			continue
+		}
+		if n*per[k] > total[k] || total[k] >= n*per[k]+n {
+			h.Fail("C07:shape-split", "pod requesting %v: %d devices x %d != requested %d in dimension %d (beyond floor rounding)", vals, n, per[k], total[k], k)
+		}
+		if k == 2 && n*per[k] != total[k] {
+			h.Fail("C07:shape-ratio-rounded", "pod requesting %v: %d devices x ratio %d != requested ratio %d", vals, n, per[k], total[k])
+		}
+		if n*per[k] != total[k] {
+			h.Tag("shape:floor-rounded")
+		}
+	}
+}
+
+func TestVerifC07Shape(t *testing.T) {
+	h := vOpen("C07")
+	if h == nil {
+		t.Skip("VERIF_OUT not set")
+	}
+	n := h.N(3000, 60000)
+	for idx := 0; idx < n; idx++ {
+		r := h.Begin(idx)
+		if r == nil {
+			continue
+		}
+		vals := [6]int64{-1, -1, -1, -1, -1, -1}
+		val := func() int64 {
+			return r.Pick([]int64{0, 1, 2, 3, 30, 50, 99, 100, 100, 101, 150, 200, 200, 300, 400, int64(r.Range(1, 450))})
+		}
+		switch r.Intn(10) {
+		case 0: // vendor GPUs
+			vals[0] = int64(r.Range(0, 4))
+		case 1: // koordinator.sh/gpu
+			vals[1] = val()
+		case 2, 3: // gpu-core + gpu-memory-ratio
+			vals[3], vals[5] = val(), val()
+		case 4: // gpu-core + gpu-memory
+			vals[3], vals[4] = val(), int64(r.Range(0, 1<<20))
+		case 5: // memory only / ratio only
+			if r.Bool() {
+				vals[4] = int64(r.Range(0, 1<<20))
+			} else {
+				vals[5] = val()
+			}
+		case 6, 7: // gpu-shared + …
+			vals[2] = int64(r.Pick([]int64{0, 1, 2, 2, 3, 4}))
+			if r.Bool() {
+				vals[3] = val()
+			}
+			if r.Bool() {
+				vals[4] = int64(r.Range(0, 1<<20))
+			} else {
+				vals[5] = val()
+			}
+			if vals[2] > 0 && r.Chance(2, 3) { // mostly valid: multiples of the share count
+				if vals[3] > 0 {
+					vals[3] = vals[2] * int64(r.Pick([]int64{10, 50, 100, 101}))
+				}
+				if vals[5] > 0 {
+					vals[5] = vals[2] * int64(r.Pick([]int64{10, 50, 100, 101}))
+				}
+			}
+		default: // any presence pattern
+			for i := range vals {
+				if r.Chance(1, 3) {
+					vals[i] = val()
+				}
+			}
+		}
+		c07ShapeCase(h, r, vals)
+		h.End()
+	}
+	h.Close("one pod spec per case: nvidia.com/gpu / koordinator.sh/gpu / gpu-shared / gpu-core / gpu-memory / gpu-memory-ratio in the documented combinations (whole, fractional, multi-device, shared, zero entries) " +
+		"and 1 case in 10 an arbitrary presence pattern, spread over one or two containers; non-trivial = the pod is accepted; distinct by op")
+}
+
+// every presence / value pattern over a small value set (thorough tier)
+func TestVerifC07ShapeExhaustive(t *testing.T) {
+	h := vOpen("C07")
+	if h == nil {
+		t.Skip("VERIF_OUT not set")
+	}
+	domain := []int64{-1, 0, 1, 2, 50, 100, 150, 200}
+	idx := 0
+	var vals [6]int64
+	var rec func(i int)
+	rec = func(i int) {
+		if i == 6 {
+			r := h.Begin(idx)
+			idx++
+			if r == nil {
+				return
+			}
+			c07ShapeCase(h, r, vals)
+			h.End()
+			return
+		}
+		for _, v := range domain {
+			vals[i] = v
+			rec(i + 1)
+		}
+	}
+	rec(0)
+	h.Extra("exhaustive", fmt.Sprintf("all %d assignments of {absent, 0, 1, 2, 50, 100, 150, 200} to the six GPU resource names", idx))
+	h.Close("exhaustive: every assignment of {absent, 0, 1, 2, 50, 100, 150, 200} to the six GPU resource names (262,144 pod specs); non-trivial = the pod is accepted")
 }
